@@ -346,6 +346,19 @@ def rule_small_sources(ctx, rule):
         rep.add(rule, '%s.request / answers with one %s' % (K.name, sig), f or K, ok and n > 0,
                 '%s once, nothing else' % sig if ok and n else 'the stream does not answer a request with exactly one '
                                                                '%s' % sig)
+        # ... and says nothing before it is asked: a terminal signal at subscribe() is sent ahead of the request frame
+        # of a channel whose requester uses this publisher (the requester subscribes its publisher first)
+        fs_ = K.lookup('subscribe')
+        quiet = True
+        if fs_ is not None:
+            for p in ctx.paths(fs_, K, inline_depth=2):
+                if [e for e in p.events if e.kind == 'call' and e.data.get('name') in (
+                        'on_next', 'on_complete', 'on_error')]:
+                    quiet = False
+        rep.add(rule, '%s.subscribe / no signal before demand' % K.name, fs_ or K, quiet,
+                'subscribe() only hands the subscription over' if quiet else
+                'subscribe() already sends the terminal signal: on a channel requester it is written before the '
+                'REQUEST_CHANNEL frame and dropped by the peer')
     m = ctx.repo.module('rsocket.streams.helpers')
     fs = m.functions.get('async_generator_from_queue')
     if not fs:
